@@ -43,13 +43,29 @@ PROPS: Dict[str, Dict[str, Any]] = {
                          "C05_knr_invalid", "C05_user", "C05_always", "C05_map_valid", "C05_map_invalid",
                          "C05_recursive_terminates", "run_mono", "Run.unique"], "stream": "core", "opts": {"salt": "c05", "gen": ["streams", "gen_wrapper_case"]},
             "quick_n": 6000, "thorough_n": 100000, "fields": ["out", "trace"]},
-    "C06": {"theorems": [], "stream": "core", "opts": {"salt": "c06", "async_rate": 0.12},
+    "C06": {"theorems": ["C06_agree", "C06_agree_Run", "C06_never_skipped", "seqStep_noAssert", "loopItems_agree",
+                         "recordStep_agree", "unionStep_agree", "mapStep_agree", "ntupleStep_agree", "seqStep_agree",
+                         "run_mono", "Run.unique"], "stream": "core", "opts": {"salt": "c06", "async_rate": 0.12},
             "quick_n": 10000, "thorough_n": 300000, "fields": ["out", "trace"]},
     "C14": {"theorems": [], "stream": "core", "opts": {"salt": "c14", "async_rate": 0.1},
             "quick_n": 10000, "thorough_n": 300000, "fields": ["out"]},
     "C17": {"theorems": [], "stream": "core", "opts": {"salt": "c17", "async_rate": 0.1, "user_rate": 0.1},
             "quick_n": 8000, "thorough_n": 100000, "fields": ["out"]},
 }
+
+
+def _run_cache(pid: str, tier: str, seed: int, spec: dict, scale: float = 1.0, salt: str = "") -> dict:
+    from . import cache_stream
+    return cache_stream.run(pid, tier, seed, spec, scale, salt)
+
+
+PROPS["C20"] = {"theorems": ["Store.get_ok", "Cache.step_ok", "C20_transparent", "C20_transparent_empty", "C20_runs",
+                             "C20_second_call_hits", "C20_run_count", "C06_agree"],
+                "run": _run_cache, "quick_n": 1500, "thorough_n": 20000,
+                "rule": "histories of 0..12 (quick) / 0..200 (thorough) sync and async calls through a dict-backed "
+                        "CacheValidatorBase subclass, over a pool of 1-7 inputs with repeats, identity- and typed-equality-"
+                        "keyed stores, wrapped validators of every kind; distinct by hash of (validator, pool, history, key); "
+                        "non-trivial when the history has at least one hit"}
 
 
 def run_core(pid: str, tier: str, seed: int, spec: dict, scale: float = 1.0, salt: str = "") -> dict:
